@@ -262,9 +262,9 @@ func c18Alphabet(thorough bool) []initCall {
 		initCall{Name: "Uniform", Nil: true}, initCall{Name: "Uniform", A: -1, B: 3},
 		initCall{Name: "Normal", Nil: true}, initCall{Name: "Normal", A: 1, B: 2},
 	)
-	fans := []int{1, 3}
+	fans := []int{1, 2, 3}
 	if thorough {
-		fans = []int{1, 2, 3, 6}
+		fans = []int{1, 2, 3, 5, 6, 10}
 	}
 	for _, fi := range fans {
 		base = append(base, initCall{Name: "HeUniform", FanIn: fi}, initCall{Name: "HeNormal", FanIn: fi})
